@@ -169,7 +169,11 @@ class Module:
         self.name = name  # e.g. "_core"
         self.path = path
         self.text = text
-        self.tree = ast.fix_missing_locations(_Canon().visit(ast.parse(text, filename=path)))
+        raw = ast.parse(text, filename=path)
+        from .alpha import normalise as _alpha_normalise
+
+        self.alpha_renamed = _alpha_normalise(raw, name)
+        self.tree = ast.fix_missing_locations(_Canon().visit(raw))
         self.funcs: Dict[str, ast.AST] = {}  # qualname -> FunctionDef (last definition wins, all kept in funcs_all)
         self.funcs_all: Dict[str, List[ast.AST]] = {}
         self.classes: Dict[str, ast.ClassDef] = {}
